@@ -2,6 +2,8 @@ package main
 
 import (
 	"math/rand"
+	"runtime"
+	"sync"
 
 	"github.com/theQRL/go-qrllib/dilithium"
 
@@ -211,6 +213,7 @@ func c03(r *rand.Rand, tier string, tr *trace.Buf, extra map[string]interface{})
 		prevPK = &p
 	}
 	c03hold(r, tier, tr)
+	c03bulk(r, tier, tr, extra)
 	extra["exits"] = exitCount
 	extra["iterations_histogram"] = iterHist
 	extra["boundary_hits"] = boundary
@@ -302,4 +305,83 @@ func c03hold(r *rand.Rand, tier string, tr *trace.Buf) {
 		}
 		tr.Emit(e)
 	}
+}
+
+// bulkEvent: many more (key, message) pairs than the detailed events can carry, reduced to counts: Sign must
+// return a signature (however many passes of the rejection loop the message needs) and it must verify.
+type bulkEvent struct {
+	Ev        string `json:"ev"`
+	N         int    `json:"n"`
+	Res       string `json:"res"`
+	SignErrs  int    `json:"signerrs"`
+	NotVerify int    `json:"notverify"`
+	FirstBad  []int  `json:"firstbad"`
+}
+
+func c03bulk(r *rand.Rand, tier string, tr *trace.Buf, extra map[string]interface{}) {
+	n := 40000
+	if tier == "thorough" {
+		n = 600000
+	}
+	var seed [48]uint8
+	r.Read(seed[:])
+	nw := runtime.NumCPU()
+	base := r.Int63()
+	type res struct {
+		signErrs, notVerify int
+		first               []byte
+	}
+	out := make([]res, nw)
+	var wg sync.WaitGroup
+	for w := 0; w < nw; w++ {
+		w := w
+		wg.Add(1)
+		go func() {
+			defer wg.Done()
+			d, err := dilithium.NewDilithiumFromSeed(seed) // one object per goroutine, the same key
+			if err != nil {
+				out[w].signErrs = 1
+				return
+			}
+			pk := d.GetPK()
+			rr := rand.New(rand.NewSource(base + int64(w)))
+			for i := w; i < n; i += nw {
+				msg := make([]byte, 8+rr.Intn(24))
+				rr.Read(msg)
+				bad := false
+				func() {
+					defer func() {
+						if recover() != nil {
+							bad = true
+							out[w].signErrs++
+						}
+					}()
+					sig, err := d.Sign(msg)
+					if err != nil {
+						bad = true
+						out[w].signErrs++
+						return
+					}
+					if !dilithium.Verify(msg, sig, &pk) {
+						bad = true
+						out[w].notVerify++
+					}
+				}()
+				if bad && out[w].first == nil {
+					out[w].first = msg
+				}
+			}
+		}()
+	}
+	wg.Wait()
+	e := bulkEvent{Ev: "bulk", N: n, Res: "ok", FirstBad: []int{}}
+	for _, o := range out {
+		e.SignErrs += o.signErrs
+		e.NotVerify += o.notVerify
+		if len(e.FirstBad) == 0 && o.first != nil {
+			e.FirstBad = ints(o.first)
+		}
+	}
+	tr.Emit(e)
+	extra["bulk_signatures"] = n
 }
